@@ -12,6 +12,7 @@ case "$ID" in
   *) exit 0 ;;
 esac
 SECS="${VERIF_FUZZ_SECS:-90}"
+JOBS="${VERIF_FUZZ_JOBS:-16}"
 SEED="${VERIF_SEED:-12648430}"; [ "$SEED" = 0 ] && SEED=1
 export CARGO_NET_OFFLINE=true VERIF_DIR="$VERIF"
 ( cd "$VERIF/harness" && cargo +nightly fuzz build --fuzz-dir "$HERE" -s none "$T" ) >"$VERIF/.build-fuzz-$T.log" 2>&1 || { echo "fuzz build failed (see $VERIF/.build-fuzz-$T.log)" >&2; exit 2; }
@@ -19,8 +20,8 @@ BIN="$HERE/target/x86_64-unknown-linux-gnu/release/$T"
 W="$HERE/work/$T-$ID"; rm -rf "$W"; mkdir -p "$W/corpus" "$W/artifacts" "$W/logs"
 cp "$VERIF/corpus/$T"/* "$W/corpus/" 2>/dev/null
 EXTRA=""; [ "$T" = parse_diff ] && EXTRA="-dict=$HERE/dict.txt -max_len=512"; [ "$T" != parse_diff ] && EXTRA="-max_len=600"
-( cd "$W/logs" && timeout $((SECS + 120)) "$BIN" "$W/corpus" -max_total_time="$SECS" -jobs=16 -workers=16 -seed="$SEED" -len_control=0 -rss_limit_mb=3000 -timeout=30 -artifact_prefix="$W/artifacts/" $EXTRA >"$W/run.log" 2>&1 )
-python3 - "$ID" "$T" "$W" "$VERIF" "$SECS" <<'PY'
+( cd "$W/logs" && timeout $((SECS + 120)) "$BIN" "$W/corpus" -max_total_time="$SECS" -jobs="$JOBS" -workers="$JOBS" -seed="$SEED" -len_control=0 -rss_limit_mb=3000 -timeout=30 -artifact_prefix="$W/artifacts/" $EXTRA >"$W/run.log" 2>&1 )
+VERIF_FUZZ_JOBS="$JOBS" python3 - "$ID" "$T" "$W" "$VERIF" "$SECS" <<'PY'
 import sys, os, re, json, glob
 ID, T, W, VERIF, SECS = sys.argv[1:6]
 execs = 0; cov = 0
@@ -43,7 +44,7 @@ for f in glob.glob(W + '/logs/fuzz-*.log'):
 ev = VERIF + '/evidence/' + ID + '.json'
 try:
     e = json.load(open(ev))
-    e['coverage']['fuzz'] = {'target': T, 'seconds': int(SECS), 'jobs': 16, 'executions': execs, 'corpus_files': corpus,
+    e['coverage']['fuzz'] = {'target': T, 'seconds': int(SECS), 'jobs': int(os.environ.get('VERIF_FUZZ_JOBS','16')), 'executions': execs, 'corpus_files': corpus,
                              'edge_coverage': cov, 'artifacts': len(arts), 'seed_corpus': 'corpus/' + T}
     json.dump(e, open(ev, 'w'), indent=1); open(ev, 'a').write('\n')
 except Exception as ex:
